@@ -123,12 +123,18 @@ def run(ck):
             eqs = [n for n in walk(cl['body']) if n.get('k') == 'Binary' and n.get('op') == 'Eq']
             ok = len(eqs) == 1 and any(x.get('m') in ('then_some', 'then') for x in H.calls_in(cl['body']))
         ck.ob('R17.2', 'walk-compares-with-base', ok, L.loc(cl) if cl else '', 'find_map(|r| r.map(|c| (&c == base).then_some(())).transpose())')
-        # is_derived_from: .and_then(|r| r.ok()).is_some()
-        calls = [c.get('m') for c in H.calls_in(df['body'])]
-        ok = 'is_derived_from_pedantic' in calls and 'is_some' in calls and any(
-            c.get('m') == 'and_then' and any(x.get('m') == 'ok' for a in c['args'] for x in H.calls_in(a)) for c in H.calls_in(df['body']))
+        # is_derived_from: evaluated on the three outcomes of the pedantic walk (any spelling: and_then/ok/is_some, matches!, match)
+        import aeval as _ae
+        res = {}
+        for name, val in (('not found', ('None',)), ('found', ('Some', ('Ok', ('#unit',)))), ('walk error', ('Some', ('Err', ('#e',))))):
+            Iv = _ae.Interp(L, stubs={'Class::is_derived_from_pedantic': (lambda a, v=val: v)})
+            try:
+                res[name] = Iv.call(df['path'], [('Class', 'X'), ('Class', 'B')], 0)
+            except _ae.Undecided as e:
+                res[name] = 'undecided: %s' % e
+        ok = res == {'not found': False, 'found': True, 'walk error': False}
         ck.ob('R17.2', 'errors-are-not-derived', ok, L.loc(df['body']),
-              'is_derived_from = pedantic(..).and_then(|r| r.ok()).is_some()' if ok else 'a walk error (dangling super class) counts as "derived": %s' % pp(df['body'], maxlen=100))
+              'is_derived_from is true exactly for Some(Ok(())): %s' % res if ok else 'is_derived_from maps the outcomes of the walk to %s (a walk error or "not found" must not count as derived)' % res)
 
     # ---- R17.3 ---------------------------------------------------------------------
     fm = L.fn('typemap::class::Class::find_map_self_and_base_classes')
